@@ -288,12 +288,13 @@ def tigerxml(tree, stream, **params):
             terminal.data['lemma'] = trees.DEFAULT_LEMMA
         if terminal.data['morph'] is None:
             terminal.data['morph'] = trees.DEFAULT_MORPH
+        attrs = {}
         for field in ['word', 'lemma', 'label', 'morph']:
-            terminal.data[field] = quoteattr(terminal.data[field])
-        stream.write(u"%s=%s " % ('word', terminal.data['word']))
-        stream.write(u"%s=%s " % ('lemma', terminal.data['lemma']))
-        stream.write(u"%s=%s " % ('pos', terminal.data['label']))
-        stream.write(u"%s=%s " % ('morph', terminal.data['morph']))
+            attrs[field] = quoteattr(terminal.data[field])
+        stream.write(u"%s=%s " % ('word', attrs['word']))
+        stream.write(u"%s=%s " % ('lemma', attrs['lemma']))
+        stream.write(u"%s=%s " % ('pos', attrs['label']))
+        stream.write(u"%s=%s " % ('morph', attrs['morph']))
         stream.write(u"/>\n")
     stream.write(u"  </terminals>\n")
     stream.write(u"  <nonterminals>\n")
